@@ -316,7 +316,7 @@ class Ctx:
 
 def finding_matches(f, what, match):
     cls = f.get('class', {})
-    if cls.get('what') and cls['what'] != what:
+    if cls.get('what') and (what not in cls['what'] if isinstance(cls['what'], list) else cls['what'] != what):
         return False
     for k, v in cls.items():
         if k == 'what': continue
